@@ -121,7 +121,33 @@ def gen_problem(rng):
             if q:
                 p.props.append(q)
         rng.shuffle(p.props)
-        return p, theme
+        return permute_vars(rng, p), theme
+    if theme == "circuit" and rng.random() < 0.15:
+        # "pinch": a successor x in [a, a+2] and its view x+1 in one alldifferent whose other members sit at a and a+3 — the two views
+        # are pruned from opposite sides in ONE call and only their intersection is a single value (next to no_sub_cycle, which is
+        # woken by instantiation only)
+        n = rng.randint(5, 6)
+        a = rng.randint(0, n - 4)
+        shr = [(0, n - 1)] * n
+        order = list(range(n))
+        rng.shuffle(order)
+        x, lo, hi = order[0], order[1], order[2]
+        shr[x] = (a, a + 2)
+        shr[lo] = (a, a) if rng.random() < 0.7 else (a, a + 1)
+        shr[hi] = (a + 3, a + 3) if rng.random() < 0.7 else (a + 2, a + 3)
+        for w in order[3:]:
+            if rng.random() < 0.5:
+                c = rng.randint(0, n - 1)
+                shr[w] = (c, c)
+        p = nv.Prob(shr, list(range(n)) + [x], [0] * n + [1])
+        allv = list(range(n))
+        p.props.append((allv, "no_sub_cycle", []))
+        p.props.append((allv, "alldifferent", []))  # no_sub_cycle is only posted together with alldifferent (DESIGN §6)
+        side = [x, n, lo, hi]
+        rng.shuffle(side)
+        p.props.append((side, "alldifferent", []))
+        rng.shuffle(p.props)
+        return permute_vars(rng, p), theme
     if theme == "circuit":
         n = rng.randint(2, 5)
         shr = []
@@ -140,8 +166,28 @@ def gen_problem(rng):
             q = make_prop(rng, p, rng.choice(["affine_leq", "max_leq", "element_iv", "count_eq"]))
             if q:
                 p.props.append(q)
+        if rng.random() < 0.35:
+            # offset views of successor domains and a side constraint over a successor AND its view (one shared domain twice in a
+            # constraint, next to the GROUND-only watcher no_sub_cycle)
+            for _ in range(rng.randint(1, 2)):
+                p.idx.append(rng.randrange(n))
+                p.off.append(rng.choice([-2, -1, 1, 2]))
+            extra = list(range(n, len(p.idx)))
+            base = [p.idx[e] for e in extra]
+            others = [v for v in range(n) if v not in base]
+            rng.shuffle(others)
+            vs = base + extra + others[: rng.randint(0, 2)]
+            rng.shuffle(vs)
+            alg = rng.choice(["alldifferent", "alldifferent", "max_leq", "min_geq", "affine_leq", "lexicographic_leq"])
+            if alg == "affine_leq":
+                cs = [rng.choice([-2, -1, 1, 2]) for _ in vs]
+                p.props.append((vs, alg, cs + [sum(c * rng.randint(0, n - 1) for c in cs)]))
+            elif alg == "lexicographic_leq" and len(vs) < 2:
+                pass
+            else:
+                p.props.append((vs, alg, []))
         rng.shuffle(p.props)
-        return p, theme
+        return permute_vars(rng, p), theme
     nshr = rng.randint(1, 4)
     shr = []
     for _ in range(nshr):
@@ -165,7 +211,21 @@ def gen_problem(rng):
         # a linear constraint over an EMPTY list of variables (what a model generated by a loop over groups posts for an empty
         # group): 0 <= c, 0 = c or 0 >= c — possibly false, in which case the problem has no solution
         p.props.insert(rng.randint(0, len(p.props)), ([], rng.choice(["affine_leq", "affine_eq", "affine_geq"]), [rng.choice([-1, 0, 0, 1])]))
-    return p, theme
+    return permute_vars(rng, p), theme
+
+
+def permute_vars(rng, p):
+    """two times out of five the variables are listed in a random order, so that dom_indices is NOT the identity on a prefix
+    (a shared-domain index and a variable index then differ even for the first variables)"""
+    if rng.random() >= 0.4 or len(p.idx) < 2:
+        return p
+    nvars = len(p.idx)
+    perm = list(range(nvars))
+    rng.shuffle(perm)  # new position j holds old variable perm[j]
+    inv = [0] * nvars
+    for j, o in enumerate(perm):
+        inv[o] = j
+    return nv.Prob(p.shr, [p.idx[o] for o in perm], [p.off[o] for o in perm], [([inv[v] for v in vs], a, ps) for vs, a, ps in p.props])
 
 
 def gen_cfg(rng, prob, cons=None):
@@ -175,6 +235,12 @@ def gen_cfg(rng, prob, cons=None):
     varh = rng.randint(0, 3 if nonneg else 2)
     domh = rng.randint(0, 4 if nonneg else 3)
     costs = [[rng.choice([1, 1, 2, 3, 5]) for _ in range(maxv + 1)] for _ in prob.shr] if nonneg else [[]]
+    if costs != [[]]:
+        # like the zero diagonal of a TSP matrix: at most ONE non-positive ("no cost") entry per row, so that every unbound
+        # domain still contains a value of positive cost (the heuristic's precondition); often in the LAST column
+        for row in costs:
+            if row and rng.random() < 0.5:
+                row[rng.choice([len(row) - 1, len(row) - 2, rng.randrange(len(row))]) % len(row)] = 0
     # every shared domain stays a decision domain (the hypothesis of C02), but in a random ORDER two times out of five
     decision = None
     if rng.random() < 0.4:
@@ -214,6 +280,47 @@ def _exec_case(c):
         H.register_dom_heuristic(H.min_value_dom_heuristic)
         C.register_consistency_algorithm(C.bound_consistency_algorithm)
         return ("ok", [], [0] * 13)
+    if c["op"] == "custom_variant":
+        # a user registers a custom propagator that REUSES a shipped compute function with its own trigger function; when
+        # c["prior"], another variant (same compute function, other triggers) was registered and used before.  The problem
+        # posts the variant in place of every affine_leq.  The outcome must not depend on the earlier registration.
+        import numpy as np
+        import nucs.propagators.propagators as PR
+        from nucs.constants import EVENT_MASK_MIN_MAX
+
+        try:
+            def trig_eager(n, parameters):
+                return np.full(n, dtype=np.uint8, fill_value=EVENT_MASK_MIN_MAX)
+
+            def trig_builtin(n, parameters):
+                return PR.get_triggers_affine_leq(n, parameters)
+
+            def my_compute(domains, parameters):  # the user's own compute function (here it delegates to a shipped one)
+                return PR.compute_domains_affine_leq(domains, parameters)
+
+            if c.get("prior"):
+                ia = PR.register_propagator(trig_eager, PR.get_complexity_affine_leq, my_compute)
+                pa = prob.build()
+                names = nv.alg_names()
+                for k, (vs, a, ps) in enumerate(pa.propagators):
+                    if names[a] == "affine_leq":
+                        pa.propagators[k] = (vs, ia, ps)
+                n1 = 0
+                for _ in cfg.solver(pa).solve():
+                    n1 += 1
+                    if n1 >= 2:
+                        break
+            ib = PR.register_propagator(trig_builtin, PR.get_complexity_affine_leq, my_compute)
+            pb = prob.build()
+            names = nv.alg_names()
+            for k, (vs, a, ps) in enumerate(pb.propagators):
+                if names[a] == "affine_leq":
+                    pb.propagators[k] = (vs, ib, ps)
+            s_ = cfg.solver(pb)
+            sols = [[int(x) for x in s] for s in s_.solve()]
+            return ("ok", sols, nv.stats_list(s_))
+        except (IndexError, OverflowError, ValueError) as e:
+            return ("err", type(e).__name__, None)
     if c["op"] == "split_solve":
         # Problem.split (public API) on a problem object that was — or was not — used by an earlier solver: the parts must mean the same
         try:
